@@ -66,6 +66,19 @@ func (g *Gen) akaWire() []byte {
 			attrs = append(attrs, a)
 		}
 		g.r.Shuffle(len(attrs), func(i, j int) { attrs[i], attrs[j] = attrs[j], attrs[i] })
+		if g.chance(0.6) { // an attribute boundary exactly at a power-of-two offset (counted from the packet, the type octet or the first attribute)
+			target := g.pick(4096, 4096, 8192, 2048, 16384) - g.pick(0, 4, 8)
+			off := 0
+			for i, a := range attrs {
+				if off < target && off+len(a) >= target {
+					if words := (target - off) / 4; words >= 1 && words <= 255 && (target-off)%4 == 0 && a[0] != 1 && a[0] != 2 && a[0] != 3 && a[0] != 11 && a[0] != 23 && a[0] != 24 && a[0] != 134 {
+						attrs[i] = append([]byte{a[0], byte(words)}, g.keyBytesRandom(words*4-2)...)
+					}
+					break
+				}
+				off += len(a)
+			}
+		}
 	}
 	body := []byte{50, byte(g.pick(1, 2, 4, 5, 12, 13, 14)), 0, 0}
 	for _, a := range attrs {
